@@ -56,7 +56,12 @@ def gen_index(i: int, seed: int, tier: str) -> dict[str, Any]:
                        # own address changing as after a tunnel reconnect)
                        "src_i": rng.randrange(3), "src_via": rng.choice(["explicit", "current"])})
     faulty = rng.random() < 0.4
-    return {"seed": seed, "tier": "S", "config": {"batch": 1, "handoff_failures": rng.random() < 0.3},
+    return {"seed": seed, "tier": "S", "config": {"batch": 1, "handoff_failures": rng.random() < 0.3,
+                                                   # the sender's Data Secure is set up from the keyring (numbers seeded from
+                                                   # the clock) and set up again before frame k, as on stop() / start() of
+                                                   # the same XKNX object
+                                                   "restart_before": rng.randrange(1, len(frames)) if len(frames) > 1
+                                                   and rng.random() < 0.2 else None},
             "frames": frames, "fault_policy": {"dup": 0.2, "delay": 0.2, "delays": [0.003, 0.05], "dup_delays": [0.001, 0.1],
                              "corrupt": 0.15} if faulty else None,
             "ops": []}
@@ -124,7 +129,15 @@ def run(plan: dict[str, Any]) -> dict[str, Any]:
             # acknowledgements: the next secured frame of that instance must still be accepted
             frng = random.Random(plan["seed"] ^ 0xFA11)
             tx.stub.pick = lambda raw, i: ({"lat": 0.002, "out": "comm_error_sent"} if frng.random() < 0.2 else None)
-        for f in plan["frames"]:
+        rb = plan["config"].get("restart_before")
+        if rb is not None:
+            tx.restart_data_secure()
+        for fi, f in enumerate(plan["frames"]):
+            if rb is not None and fi == rb:
+                await tx.xknx.telegrams.join()
+                await asyncio.sleep(0.2)
+                tx.restart_data_secure()
+                R.extra_faults["sender_data_secure_set_up_again_from_keyring"] += 1
             ln = f["len"]
             dst = rng.choice([ga, ga2])
             if ln == 2:
@@ -166,11 +179,10 @@ def run(plan: dict[str, Any]) -> dict[str, Any]:
                     asdu = sd.to_knx()
                     # the independent implementation agrees for authenticated encryption (C19's clause); for the
                     # authentication-only algorithm no real-world vector exists, so a difference is only a probe
-                    mine = C.ds_secure(keys[dst], apdu, scf, seq, src, dst, True, 0, 0)
+                    mine = C.ds_secure(keys[dst], apdu, scf, seq, src, dst, True, 0, 0x04 if tag else 0x00)
                     if tag:
-                        # no anchor for non-zero TPCI bits (see C19's note): xknx-to-xknx acceptance is what is judged here
                         R.probes["tag_group_frames"] += 1
-                    elif mine != asdu:
+                    if mine != asdu:
                         if f["algo"] == "enc":
                             R.violate("C19.conformance", "init_from_plain_apdu!=reference", f"len {ln}: {asdu.hex()} vs {mine.hex()}")
                         else:
